@@ -14,7 +14,7 @@ ACTSETS = {
                                    "plain-app", "plain-hs-0", "plain-hs-20", "forge-hs-1", "forge-hs-20", "plain-ccs", "reflect",
                                    "replay")),
 }
-QUICK_BUDGET = {"C01": 2600, "C06": 3600, "C15": 2600}
+QUICK_BUDGET = {"C01": 2600, "C06": 5200, "C15": 3200}
 
 ASSUME = [
     "record protection primitives are correct: a record verifies iff it was sealed by a holder of the keys for the receiver's current key and sequence number and was not modified (the driver computes this from key fingerprints and sequence numbers read from the two session structs)",
@@ -93,7 +93,8 @@ def main(prop, tier, seed):
         # keep every (cfg, action) pair at least once, then fill up to the budget
         seen, keep, rest = set(), [], []
         for e in eps:
-            key = (e["cfg"], e["act"], e["target"], e["k"] if e["act"].startswith("takeover") else -1)
+            # ChangeCipherSpec handling depends on the exact handshake state: keep those injections at every stop point
+            key = (e["cfg"], e["act"], e["target"], e["k"] if e["act"].startswith(("takeover", "plain-ccs", "forge-ccs")) else -1)
             if key not in seen:
                 seen.add(key); keep.append(e)
             else:
